@@ -104,9 +104,11 @@ pub fn calc_metadata(
     } else {
         let pre_gas_info_old =
             calc_gas_precost_info(program, program_info, pre_function_set_costs)?;
-        if !config.skip_non_linear_solver_comparisons {
-            pre_gas_info_old.assert_eq_variables(&pre_gas_info_new, program);
-            pre_gas_info_old.assert_eq_functions(&pre_gas_info_new);
+        if !config.skip_non_linear_solver_comparisons
+            && !(pre_gas_info_old.eq_variables(&pre_gas_info_new, program)
+                && pre_gas_info_old.eq_functions(&pre_gas_info_new))
+        {
+            return Err(CostError::SolversMismatch.into());
         }
         pre_gas_info_old
     };
